@@ -1,5 +1,5 @@
 SPECIFICATION Spec
-CONSTANTS MaxN = 9
+CONSTANTS MaxN = 8
           Widths = {2, 3, 4}
           ChunkSz = 4
           MaxFiles = 3
